@@ -225,7 +225,9 @@ def c02(tier, seed):
             style = s % 3
             n = rng.randint(3, 7)
             hist = _hist_step(n) if style == 0 else (_hist_run(n) if style == 1 else _hist_step(n, override_every=2))
-            runs.append(dict(history=hist, sched=dict(seed=seed * 1000 + s, policy=POLICIES[s % 5])))
+            # every sixth schedule is a one-preemption sweep (the user thread held back for a fixed number of worker points after each call)
+            sched = dict(seed=seed * 1000 + s, policy="sweep", hold=(7 * s + i) % 37) if s % 6 == 5 else dict(seed=seed * 1000 + s, policy=POLICIES[s % 5])
+            runs.append(dict(history=hist, sched=sched))
         for rtf in ([0, 20] if quick else [0, 5, 20]):
             jobs.append(dict(kind="async", id=f"c02g{i}rtf{rtf}", cfg=cfg, seed=seed + i, gate=True, rtf=rtf, runs=runs if rtf == 0 else runs[:4], ref=True, fixed_gs_eps=0, timeout=900))
         # free-running threads (real OS scheduling), throttled and not
